@@ -23,7 +23,7 @@ def rand_precond(rnd, *, kind=None, allow_iterative=True, allow_ignored=True, or
         if rnd.random() < 0.5:
             pc["solver"] = {"type": "eigh"}
         else:
-            pc["solver"] = {"type": "qr", "max_iterations": rnd.choice([1, 1, 2, 3, 5]), "tolerance": rnd.choice([0.0, 1e-5, 1e-2])}
+            pc["solver"] = {"type": "qr", "max_iterations": rnd.choice([1, 1, 2, 3, 5]), "tolerance": rnd.choice([0.0, 1e-5, 1e-2, 0.3, 1.0])}
     if allow_ignored and rnd.random() < 0.25:
         k = rnd.randint(1, 2)
         pc["ignored_dims"] = sorted(rnd.sample(range(order_max), k))
@@ -285,6 +285,9 @@ def build_optimizer(ds, torch, cfg, params, groups=None, **extra):
     for g in groups:
         d = {"params": [params[i] for i in g["params"]]}
         for k, v in (g.get("overrides") or {}).items():
-            d[k] = tuple(v) if k == "betas" else v
+            if k == "precond":
+                d["preconditioner_config"] = build_precond(ds, v)
+            else:
+                d[k] = tuple(v) if k == "betas" else v
         pg.append(d)
     return ds.DistributedShampoo(pg, **kw)
